@@ -88,7 +88,24 @@ int main(int argc, char** argv)
                 (void)n;
                 rds = "S" + hex(str);
             }
-            return "OK\t" + ats + "\t" + fls + "\t" + pres + "\t" + rds;
+            // every listed entry, read the way read_file does
+            std::string all;
+            bool first = true;
+            for (auto& d : pbo.files())
+            {
+                rvutils::pbo::pbofile::reader r2;
+                if (!first) all += ";";
+                first = false;
+                if (pbo.read(d.name, r2))
+                {
+                    std::string str;
+                    str.resize(r2.descriptor().size);
+                    r2.read(str.data(), (std::streamsize)r2.descriptor().size);
+                    all += "S" + hex(str);
+                }
+                else all += "NONE";
+            }
+            return "OK\t" + ats + "\t" + fls + "\t" + pres + "\t" + rds + "\t" + all;
         }, 5000, mem_mb);
         auto after = snapshot(dir);
         std::cout << res << "\tFS:" << (before == after ? "same" : "changed") << "\n";
